@@ -817,29 +817,31 @@ Qed.
 
 (* ================================================================== many rotations (rot) *)
 Record rinv (k : N) (r : rot_st) : Prop := {
-  ri_p : r_panic r = false; ri_i : r_i r = k + 1; ri_d : r_done r = k; ri_o : r_opened r = k;
-  ri_ph : phase (r_s r) = N.odd k; ri_t : timer (r_s r) = None; ri_g : generation (r_s r) = k;
+  ri_i : r_i r = k + 1; ri_d : r_done r = k; ri_o : r_opened r = k;
+  ri_l : r_last r = k mod 65536;
+  ri_ph : phase (r_s r) = N.odd k; ri_t : timer (r_s r) = None; ri_g : generation (r_s r) = k mod 65536;
   ri_a : k_gen (slot (r_s r) (N.odd k)) = k;
   ri_n : k_gen (slot (r_s r) (negb (N.odd k))) = k + 1 }.
 
 Lemma has_elapsed_1_1 : has_elapsed 1 1 = true.
 Proof. reflexivity. Qed.
 
-Lemma rot_cycle_inv : forall k r, k < u16_max -> rinv k r -> rinv (k + 1) (rot_cycle r).
+Lemma rot_cycle_inv : forall k r, rinv k r -> rinv (k + 1) (rot_cycle r).
 Proof.
-  intros k [i s d o l pn] Hk [Hp Hi Hd Ho Hph Ht Hg Ha Hn]. cbn [r_panic r_i r_s r_done r_opened r_last] in *.
-  subst pn i d o. unfold rot_cycle. cbn [r_panic r_i r_s r_done r_opened r_last].
-  assert (Hov : rotation_overflows s (k + 1) (N.odd (k + 1)) = false).
-  { unfold rotation_overflows. rewrite Hg. destruct (N.eqb_spec k u16_max); [lia|]. apply Bool.andb_false_r. }
-  rewrite Hov. unfold decrypt_packet. rewrite phase_to_use_eq. rewrite odd_succ_negb.
+  intros k [i s d o l] [Hi Hd Ho Hl Hph Ht Hg Ha Hn]. cbn [r_i r_s r_done r_opened r_last] in *.
+  subst i d o. unfold rot_cycle. cbn [r_i r_s r_done r_opened r_last].
+  unfold decrypt_packet. rewrite phase_to_use_eq. rewrite odd_succ_negb.
   rewrite Hn, N.eqb_refl.
   cbn [phase set_slot timer in_progress]. unfold in_progress. cbn [timer set_slot]. rewrite Hph, Ht.
   assert (Hb : negb (Bool.eqb (negb (N.odd k)) (N.odd k)) && negb false = true) by (destruct (N.odd k); reflexivity).
   rewrite Hb. cbn [is_ok generation set_timer rotate_phase set_slot].
   unfold on_timeout. cbn [timer set_timer]. rewrite has_elapsed_1_1.
-  constructor; cbn [r_panic r_i r_s r_done r_opened r_last]; try reflexivity.
+  assert (Hm : (k mod 65536 + 1) mod 65536 = (k + 1) mod 65536).
+  { rewrite N.add_mod_idemp_l by discriminate. reflexivity. }
+  constructor; cbn [r_i r_s r_done r_opened r_last]; try reflexivity.
+  - rewrite Hg. exact Hm.
   - cbn. rewrite Hph, odd_succ_negb. reflexivity.
-  - cbn. rewrite Hg. reflexivity.
+  - cbn. rewrite Hg. exact Hm.
   - rewrite odd_succ_negb. unfold derive_and_store_next_key, active. cbn. rewrite Hph.
     destruct (N.odd k); cbn in *; exact Hn.
   - rewrite odd_succ_negb, Bool.negb_involutive.
@@ -847,38 +849,43 @@ Proof.
     destruct (N.odd k); cbn in *; rewrite Hn; reflexivity.
 Qed.
 
-Lemma rot_iter_inv : forall cl il win n, n <= u16_max ->
-  rinv n (N.iter n rot_cycle
-    {| r_i := 1; r_s := ks_new cl il win; r_done := 0; r_opened := 0; r_last := 0; r_panic := false |}).
+Lemma rot_iter_inv : forall cl il win n,
+  rinv n (N.iter n rot_cycle {| r_i := 1; r_s := ks_new cl il win; r_done := 0; r_opened := 0; r_last := 0 |}).
 Proof.
-  intros cl il win n. induction n as [|n IH] using N.peano_ind; intros Hn.
+  intros cl il win n. induction n as [|n IH] using N.peano_ind.
   - cbn. constructor; reflexivity.
-  - rewrite N.iter_succ. rewrite <- N.add_1_r. apply rot_cycle_inv; [lia|]. apply IH. lia.
+  - rewrite N.iter_succ. rewrite <- N.add_1_r. apply rot_cycle_inv. exact IH.
 Qed.
 
-(* up to 65535 key updates the endpoint follows every update; the judgement accepts the model *)
-Theorem rot_judge_run_partial : forall c, rot_n c <= u16_max -> rot_judge c (rot_run c) = true.
+(* any number of complete key updates: every genuine packet opens, the endpoint ends on generation
+   n with key phase n mod 2, the reported generation is n mod 2^16; the judgement accepts the model *)
+Theorem rot_survives : forall cl il win n,
+  let r := N.iter n rot_cycle {| r_i := 1; r_s := ks_new cl il win; r_done := 0; r_opened := 0; r_last := 0 |} in
+  r_opened r = n /\ act_gen (r_s r) = n /\ phase (r_s r) = N.odd n /\ in_progress (r_s r) = false /\
+  r_last r = n mod 65536.
 Proof.
-  intros c Hn. unfold rot_judge, rot_run, rot_final, ks_cfg.
-  destruct (rot_iter_inv (zN (nth 0 c 0%Z)) (zN (nth 1 c 0%Z)) (zN (nth 2 c 0%Z)) (rot_n c) Hn)
-    as [Hp Hi Hd Ho Hph Ht Hg Ha _].
-  cbn [app st_small]. rewrite Hp, Hd, Ho, Hph. unfold active. rewrite Hph, Ha.
-  cbn [bz]. rewrite !Z.eqb_refl. reflexivity.
+  intros cl il win n r. destruct (rot_iter_inv cl il win n) as [Hi Hd Ho Hl Hph Ht Hg Ha _]. fold r in Hi, Hd, Ho, Hl, Hph, Ht, Hg, Ha.
+  repeat split; try assumption.
+  - unfold act_gen, active. rewrite Hph. exact Ha.
+  - unfold in_progress. rewrite Ht. reflexivity.
 Qed.
 
-(* the 65536th update: with overflow checks the model (like the real KeySet) stops with a panic,
-   which the judgement rejects *)
-Lemma rot_overflow_refuted :
-  rot_run [64; 64; 10; 65536]%Z = [1; 65535; 65535; 65535; 1; 65535; 0; 65535]%Z /\
-  rot_judge [64; 64; 10; 65536]%Z (rot_run [64; 64; 10; 65536]%Z) = false.
-Proof. split; vm_compute; reflexivity. Qed.
+Theorem rot_judge_run : forall c, rot_judge c (rot_run c) = true.
+Proof.
+  intros c. unfold rot_judge, rot_run, rot_final, ks_cfg.
+  destruct (rot_iter_inv (zN (nth 0 c 0%Z)) (zN (nth 1 c 0%Z)) (zN (nth 2 c 0%Z)) (rot_n c))
+    as [Hi Hd Ho Hl Hph Ht Hg Ha _].
+  cbn [app st_small]. rewrite Hd, Ho, Hph. unfold active. rewrite Hph, Ha.
+  rewrite !Z.eqb_refl. reflexivity.
+Qed.
 
-(* in the other components the counter cannot overflow: it grows by at most one per operation *)
+(* the counter grows by at most one per operation *)
 Lemma kstep_generation : forall s o, generation (fst (kstep s o)) <= generation s + 1.
 Proof.
   intros s o. destruct o as [|g p pn la pto|now0]; cbn [kstep].
   - unfold encrypt_packet. destruct (expired _); cbn; lia.
-  - unfold decrypt_packet. destruct (_ =? _); [destruct (_ && _)|destruct (_ <=? _)]; cbn; lia.
+  - unfold decrypt_packet. destruct (_ =? _); [destruct (_ && _)|destruct (_ <=? _)]; cbn; try lia.
+    apply N.mod_le. discriminate.
   - cbn [fst]. unfold on_timeout. destruct (timer s); [|lia]. destruct (has_elapsed _ _); cbn; lia.
 Qed.
 
@@ -896,17 +903,18 @@ Proof. induction a as [|o t IH]; intros b d; [reflexivity|]. cbn [app dsteps]. a
 
 Lemma kstep_keeps_timer : forall s o t, timer s = Some t ->
   (forall now0, o = KTimeout now0 -> has_elapsed t now0 = false) ->
-  timer (fst (kstep s o)) = Some t /\ forall q, gen_of (fst (kstep s o)) q = gen_of s q.
+  timer (fst (kstep s o)) = Some t /\ phase (fst (kstep s o)) = phase s /\
+  forall q, gen_of (fst (kstep s o)) q = gen_of s q.
 Proof.
   intros s o t T H. destruct o as [|g p pn la pto0|now0]; cbn [kstep].
-  - unfold encrypt_packet. destruct (expired _); cbn [fst]; [split; auto|].
-    split; [exact T|]. intros q. unfold gen_of. destruct q, (encryption_phase s); reflexivity.
+  - unfold encrypt_packet. destruct (expired _); cbn [fst]; [repeat split; auto|].
+    split; [exact T|]. split; [reflexivity|]. intros q. unfold gen_of. destruct q, (encryption_phase s); reflexivity.
   - unfold decrypt_packet. rewrite phase_to_use_eq.
     assert (IP : in_progress (set_slot s p (on_dec (slot s p))) = true) by (unfold in_progress; cbn; rewrite T; reflexivity).
     rewrite IP, Bool.andb_false_r.
-    destruct (_ =? _); [|destruct (_ <=? _)]; cbn [fst]; (split; [exact T|]);
+    destruct (_ =? _); [|destruct (_ <=? _)]; cbn [fst]; (split; [exact T|]); (split; [reflexivity|]);
       intros q; unfold gen_of; destruct q, p; reflexivity.
-  - cbn [fst]. unfold on_timeout. rewrite T, (H now0 eq_refl). split; auto.
+  - cbn [fst]. unfold on_timeout. rewrite T, (H now0 eq_refl). repeat split; auto.
 Qed.
 
 Lemma dstep_now_mono : forall d o, now d <= now (fst (dstep d o)).
@@ -958,10 +966,10 @@ Qed.
 
 Lemma dstep_keeps_timer : forall d o e t, timer (ep d e) = Some t ->
   now (fst (dstep d o)) + Gen_C15.granularity_us <= t ->
-  timer (ep (fst (dstep d o)) e) = Some t /\
+  timer (ep (fst (dstep d o)) e) = Some t /\ phase (ep (fst (dstep d o)) e) = phase (ep d e) /\
   forall q, gen_of (ep (fst (dstep d o)) e) q = gen_of (ep d e) q.
 Proof.
-  intros d o e t T H. destruct (dstep_ep d o e) as [E|[ko [E Hk]]]; rewrite E; [split; auto|].
+  intros d o e t T H. destruct (dstep_ep d o e) as [E|[ko [E Hk]]]; rewrite E; [repeat split; auto|].
   apply kstep_keeps_timer; [exact T|]. intros n0 Hn. rewrite (Hk n0 Hn). apply not_elapsed. exact H.
 Qed.
 
@@ -969,13 +977,14 @@ Qed.
    clock has not reached t - granularity: whatever is sealed, delivered, forged or timed meanwhile *)
 Lemma duo_retain : forall ops d e t, timer (ep d e) = Some t ->
   now (dsteps d ops) + Gen_C15.granularity_us <= t ->
-  timer (ep (dsteps d ops) e) = Some t /\
+  timer (ep (dsteps d ops) e) = Some t /\ phase (ep (dsteps d ops) e) = phase (ep d e) /\
   forall q, gen_of (ep (dsteps d ops) e) q = gen_of (ep d e) q.
 Proof.
-  induction ops as [|o r IH]; intros d e t T H; [split; auto|]. cbn [dsteps] in *.
+  induction ops as [|o r IH]; intros d e t T H; [repeat split; auto|]. cbn [dsteps] in *.
   pose proof (dsteps_now_mono r (fst (dstep d o))) as M.
-  destruct (dstep_keeps_timer d o e t T) as [T1 G1]; [lia|].
-  destruct (IH _ e t T1 H) as [T2 G2]. split; [exact T2|]. intros q. rewrite G2. apply G1.
+  destruct (dstep_keeps_timer d o e t T) as [T1 [P1 G1]]; [lia|].
+  destruct (IH _ e t T1 H) as [T2 [P2 G2]]. split; [exact T2|]. split; [congruence|].
+  intros q. rewrite G2. apply G1.
 Qed.
 
 (* the timer armed by a rotation is the delivery time plus the configured PTO *)
@@ -985,7 +994,7 @@ Proof.
   intros d e i t T H. cbn [dstep] in H. destruct (pick _ _) as [[pn [g p]]|]; [|cbn in H; congruence].
   unfold decrypt_packet in H. rewrite phase_to_use_eq in H.
   destruct (_ =? _) in H; [destruct (_ && _) in H|destruct (_ <=? _) in H]; cbn [fst snd is_ok] in H;
-    destruct e; cbn in H; congruence.
+    destruct e; cbn in H, T; congruence.
 Qed.
 
 (* H1.  Endpoint e rotated at time T (delivery of packet i armed its timer).  Whatever happens
@@ -1005,27 +1014,29 @@ Proof.
   intros cl il win p ops e i ops' j pn g ph d0 d1 d2 T0 IP H P G.
   unfold in_progress in IP. destruct (timer (ep d1 e)) as [t|] eqn:T1; [|discriminate].
   pose proof (rotation_sets_timer d0 e i t T0 T1) as ->.
-  destruct (duo_retain ops' d1 e _ T1 H) as [T2 G2].
+  destruct (duo_retain ops' d1 e _ T1 H) as [T2 [P2 G2]]. fold d2 in T2, P2, G2.
   assert (E : d2 = dsteps (duo_new cl il win p) (ops ++ DDeliver e i :: ops')).
   { unfold d2, d1, d0. rewrite dsteps_app. reflexivity. }
   pose proof (mutual_decryptability_partial cl il win p (ops ++ DDeliver e i :: ops') e j pn g ph) as M.
   cbn zeta in M. rewrite <- E in M. rewrite (M P).
   unfold ep_holds, in_progress. rewrite T2.
   assert (A : act_gen (ep d2 e) = act_gen (ep d1 e)).
-  { unfold act_gen, active.
-    assert (Ph : phase (ep d2 e) = phase (ep d1 e)).
-    { destruct (dgood_steps cl il (ops ++ DDeliver e i :: ops') _ (dgood_init cl il win p)) as [[j2 [DM2 _]] _].
-      rewrite <- E in DM2. destruct (DM2 e) as [[P2 _ _ _ _]].
-      destruct (dgood_steps cl il (ops ++ [DDeliver e i]) _ (dgood_init cl il win p)) as [[j1 [DM1 _]] _].
-      rewrite dsteps_app in DM1. cbn [dsteps] in DM1. fold d0 in DM1. fold d1 in DM1.
-      destruct (DM1 e) as [[P1 _ _ _ _]].
-      (* the phase is the parity of the active generation in both states; generations agree slotwise *)
-      unfold act_gen, active in P1, P2.
-      destruct (phase (ep d2 e)) eqn:X2, (phase (ep d1 e)) eqn:X1; try reflexivity; exfalso;
-        [pose proof (G2 true) as Q|pose proof (G2 false) as Q]; unfold gen_of in Q;
-        pose proof (slot_parity _ _ _ true (let (I) := DM1 e in I)) as S1t;
-        pose proof (slot_parity _ _ _ false (let (I) := DM1 e in I)) as S1f;
-        unfold gen_of in S1t, S1f; rewrite Q in P2; congruence. }
-    rewrite Ph. apply (G2 (phase (ep d1 e))). }
+  { unfold act_gen, active. rewrite P2. apply (G2 (phase (ep d1 e))). }
   rewrite A, <- G, N.eqb_refl. cbn. rewrite Bool.orb_true_r. reflexivity.
 Qed.
+
+(* H2 does NOT follow from the code: KeySet starts the next update as soon as its own derivation
+   timer has fired and its active key is inside the update window; it neither waits for an
+   acknowledgement in the current phase (RFC 9001 6.1) nor for 3 PTO (6.5).  Witness (limit 4,
+   window 3, PTO 5000 us): A initiates generation 1; B follows at t=1 (timer 5001); A follows at
+   t=101 (timer 5101); at t=4101 B's timer has fired, A's has not; B seals its next packet under
+   generation 2 and it is delivered at that very instant, in order -- A still retains generation 0
+   in that slot and cannot open it. *)
+Lemma update_spacing_refuted :
+  let ops := [DEnc false; DEnc false; DEnc false; DDeliver true 2; DEnc true; DEnc true;
+              DTime 100; DDeliver false 0; DTime 4000; DEnc true] in
+  let d := dsteps (duo_new 4 64 3 5000) ops in
+  pick (sent d true) 2 = Some (2, (2, false)) /\
+  act_gen (ep d false) = 1 /\ in_progress (ep d false) = true /\ in_progress (ep d true) = false /\
+  is_ok (snd (decrypt_packet (ep d false) 2 false 2 (largest d false) (now d + pto d))) = false.
+Proof. vm_compute. repeat split; reflexivity. Qed.
